@@ -53,16 +53,19 @@ func (f *Func) Exported() bool {
 
 // Model indexes all functions with bodies of the ark packages.
 type Model struct {
-	Prog      *Program
-	Funcs     []*Func // package ecs only, declaration order (sorted by position)
-	ByObj     map[*types.Func]*Func
-	ByLit     map[*ast.FuncLit]*Func
-	Info      *types.Info
-	noReturn  map[*types.Func]bool
-	enclosing map[ast.Node]*Func
-	defs      map[*types.Var]ast.Expr
-	pure      map[*Func]int
-	inlined   map[ast.Expr]ast.Expr
+	Prog          *Program
+	Funcs         []*Func // package ecs only, declaration order (sorted by position)
+	ByObj         map[*types.Func]*Func
+	ByLit         map[*ast.FuncLit]*Func
+	Info          *types.Info
+	noReturn      map[*types.Func]bool
+	enclosing     map[ast.Node]*Func
+	defs          map[*types.Var]ast.Expr
+	pure          map[*Func]int
+	inlined       map[ast.Expr]ast.Expr
+	expanding     map[*Func]bool
+	noExpand      bool
+	inlinedLocals map[ast.Expr]ast.Expr
 }
 
 // NewModel builds the function index for package ecs of the program.
